@@ -1930,8 +1930,9 @@ func (r stack) defaultAssertionHandler(x any) (str string) {
 		// type alias of Stack/Condition, this
 		// will be the condition that matches.
 		str = padValue(!r.positive(nspad), r.encapv(meth()))
-	} else if isKnownPrimitive(x) {
-		// If its a Go primitive, string it (see misc.go).
+	} else if _, is := underlyingPrimitive(x); is {
+		// If its a Go primitive (or of a defined type whose
+		// underlying type is one), string it (see misc.go).
 		str = padValue(!r.positive(nspad), r.encapv(primitiveStringer(x)))
 	}
 
